@@ -141,8 +141,15 @@ fn gen_pipe_cfg(r: &mut Rng, thorough: bool, perm: bool) -> Sc {
             }
             k @ (1 | 2) => {
                 let slot = r.below(pipes.max(1));
-                let fd = match r.below(12) {
+                let fd = match r.below(13) {
                     0 => "imm",
+                    12 => {
+                        if k == 1 {
+                            "whi"
+                        } else {
+                            "rhi"
+                        }
+                    }
                     1 => {
                         if k == 1 {
                             "r"
@@ -189,6 +196,17 @@ fn gen_pipe_cfg(r: &mut Rng, thorough: bool, perm: bool) -> Sc {
             v = vals[vals.len() - 1];
         }
         vals.push(v);
+    }
+    // some calls on "never issued" descriptors use the very number a *later* pipe() is going to hand out
+    let mut np = 0usize;
+    for op in ops.iter_mut() {
+        match op {
+            Op::Pipe { .. } => np += 1,
+            Op::Write { fd, imm, .. } | Op::Read { fd, imm, .. } if fd == "imm" && 2 * np + 1 < vals.len() && r.chance(1, 3) => {
+                *imm = (vals[2 * np + r.usize(2)] as u16) as u64 + 1024;
+            }
+            _ => {}
+        }
     }
     Sc { kind: "pipe".into(), ops, blockers: vec![], rng_values: vals, rng_seed: r.next(), user_hook: r.pick(&["after", "after", "before", "none"]).to_string(), src_seed: r.next(), high: false }
 }
@@ -306,7 +324,7 @@ mod asm {
                     let is_write = matches!(op, Op::Write { .. });
                     match fd.as_str() {
                         "imm" => a.mov(rdi, *imm)?,
-                        "r" => {
+                        "r" | "rhi" => {
                             a.mov(rbx, FDT + 16 * slot)?;
                             a.mov(rdi, qword_ptr(rbx))?;
                         }
@@ -314,6 +332,12 @@ mod asm {
                             a.mov(rbx, FDT + 16 * slot)?;
                             a.mov(rdi, qword_ptr(rbx + 8))?;
                         }
+                    }
+                    if fd.ends_with("hi") {
+                        // a different descriptor that agrees with a live one in its low 32 bits
+                        // (descriptors are below 2^17, so adding 2^32 sets bit 32; ADD is an implemented form)
+                        a.mov(rbx, 0x1_0000_0000u64)?;
+                        a.add(rdi, rbx)?;
                     }
                     a.mov(rsi, buf_addr(buf, *off, *n))?;
                     a.mov(rdx, *n)?;
@@ -726,6 +750,9 @@ fn run_pipe(sc: &Sc, ax: &mut Axecutor, marks: &[u64], seen: &Rc<RefCell<Vec<(u6
                             }
                         }
                     }
+                    // (a descriptor drawn by a pipe() that then failed on its buffer: whether ax still knows it is
+                    // not settled by the statement - no verdict, as for pipe() itself)
+                    None if reserved.contains(&rdi) => ctx.probe("call_on_descriptor_of_a_failed_pipe"),
                     None => non_pipe(sc, ctx, "read", rdi, &pipes, &user_saw, ok, &before, &after, ax, rax_after),
                 }
             }
@@ -777,6 +804,9 @@ fn run_pipe(sc: &Sc, ax: &mut Axecutor, marks: &[u64], seen: &Rc<RefCell<Vec<(u6
                             }
                         }
                     }
+                    // (a descriptor drawn by a pipe() that then failed on its buffer: whether ax still knows it is
+                    // not settled by the statement - no verdict, as for pipe() itself)
+                    None if reserved.contains(&rdi) => ctx.probe("call_on_descriptor_of_a_failed_pipe"),
                     None => non_pipe(sc, ctx, "write", rdi, &pipes, &user_saw, ok, &before, &after, ax, rax_after),
                 }
             }
